@@ -1,8 +1,13 @@
 import ProbLogModel.Containers
+import ProbLogProofs.Lemmas.ContainersBitVec
+import ProbLogProofs.Lemmas.ContainersHeapOps
 /-!
 # C34 — utility containers behave as their abstract models (property theorems only)
 
-OrderedSet ≙ duplicate-free list in first-insertion order; set operations have set semantics.
+* OrderedSet ≙ duplicate-free list in first-insertion order; set operations have set semantics.
+* BitVector ≙ set of naturals (`contains` is the membership test; `iter` the strictly increasing enumeration).
+* UHeap ≙ finite map item ↦ key (`heapMap`) with delete-min; the well-formedness invariant `HeapWF`
+  (index map consistent with the array + heap order) is preserved by every operation.
 -/
 namespace ProbLogProofs.C34
 open ProbLogModel.Containers
@@ -145,5 +150,396 @@ theorem C34_oset_mem_sub (a b : OSet) (x : Int) :
 /-- Non-vacuity: a concrete run. -/
 example : (OSet.ofList [3, 1, 3, 2, 1]).iter = [3, 1, 2] := by decide
 example : (OSet.inter (OSet.ofList [1, 2, 3]) (OSet.ofList [3, 1])).iter = [3, 1] := by decide
+
+/-! ## BitVector as a set of naturals -/
+section BitVector
+open ProbLogProofs.ContainersBV
+
+/-- Every block holds at most `binsize = 32` bits (invariant of the public operations). -/
+abbrev BVWF (s : BitVec5) : Prop := ContainersBV.WF s
+
+theorem C34_bv_contains_empty (j : Nat) : BitVec5.empty.contains j = false := by
+  simp [contains_eq, BitVec5.empty]
+
+theorem C34_bv_contains_add (s : BitVec5) (i j : Nat) :
+    (s.add i).contains j = (j == i || s.contains j) := by
+  rw [contains_eq, contains_eq, add_getD]
+  by_cases hb : j / 32 = i / 32
+  · simp only [hb, if_true, Nat.testBit_or, Nat.testBit_two_pow]
+    by_cases hm : i % 32 = j % 32
+    · have : j = i := by omega
+      simp [hm, this]
+    · have : ¬ j = i := by intro e; subst e; exact hm rfl
+      simp [hm, this, Bool.or_comm]
+  · have : ¬ j = i := by intro e; subst e; exact hb rfl
+    simp [hb, this]
+
+theorem C34_bv_contains_and (a b : BitVec5) (j : Nat) :
+    (a.and b).contains j = (a.contains j && b.contains j) := by
+  simp only [contains_eq, BitVec5.and, getD_zipWith_and, Nat.testBit_and]
+
+theorem C34_bv_contains_or (a b : BitVec5) (j : Nat) :
+    (a.or b).contains j = (a.contains j || b.contains j) := by
+  simp only [contains_eq, BitVec5.or, getD_or_blocks, Nat.testBit_or]
+
+theorem C34_bv_contains_iand (a b : BitVec5) (j : Nat) :
+    (a.iand b).contains j = (a.contains j && b.contains j) := C34_bv_contains_and a b j
+
+theorem C34_bv_contains_ior (a b : BitVec5) (j : Nat) :
+    (a.ior b).contains j = (a.contains j || b.contains j) := C34_bv_contains_or a b j
+
+/-- Iteration enumerates in strictly increasing order … -/
+theorem C34_bv_iter_sorted (s : BitVec5) : s.iter.Pairwise (· < ·) := iterFrom_sorted 0 s.blocks
+
+/-- … exactly the members. -/
+theorem C34_bv_mem_iter (s : BitVec5) (j : Nat) : j ∈ s.iter ↔ s.contains j = true := by
+  unfold BitVec5.iter
+  rw [mem_iterFrom, contains_eq]
+  simp
+
+theorem C34_bv_wf_empty : BVWF BitVec5.empty := by intro b hb; simp [BitVec5.empty] at hb
+
+theorem C34_bv_wf_add (s : BitVec5) (i : Nat) (h : BVWF s) : BVWF (s.add i) := by
+  unfold BitVec5.add
+  apply setBlock_bound
+  · intro x hx
+    split at hx
+    · rw [List.mem_append] at hx
+      rcases hx with hx | hx
+      · exact h x hx
+      · rw [List.mem_replicate] at hx; rw [hx.2]; decide
+    · exact h x hx
+  · rw [and_mask, Nat.one_shiftLeft]
+    exact Nat.pow_lt_pow_right (by decide) (Nat.mod_lt _ (by decide))
+
+theorem C34_bv_wf_and (a b : BitVec5) (ha : BVWF a) : BVWF (a.and b) := by
+  intro x hx
+  simp only [BitVec5.and, List.mem_iff_getElem?, List.getElem?_zipWith] at hx
+  obtain ⟨i, hi⟩ := hx
+  split at hi
+  · rename_i u v hu hv
+    have hu' : u ∈ a.blocks := List.mem_iff_getElem?.2 ⟨i, hu⟩
+    have := Option.some.inj hi
+    rw [← this]
+    exact Nat.lt_of_le_of_lt Nat.and_le_left (ha u hu')
+  · cases hi
+
+theorem C34_bv_wf_or (a b : BitVec5) (ha : BVWF a) (hb : BVWF b) : BVWF (a.or b) := by
+  intro x hx
+  simp only [BitVec5.or, List.mem_append] at hx
+  rcases hx with (hx | hx) | hx
+  · simp only [List.mem_iff_getElem?, List.getElem?_zipWith] at hx
+    obtain ⟨i, hi⟩ := hx
+    split at hi
+    · rename_i u v hu hv
+      have hu' : u ∈ a.blocks := List.mem_iff_getElem?.2 ⟨i, hu⟩
+      have hv' : v ∈ b.blocks := List.mem_iff_getElem?.2 ⟨i, hv⟩
+      have := Option.some.inj hi
+      rw [← this]
+      exact Nat.or_lt_two_pow (ha u hu') (hb v hv')
+    · cases hi
+  · exact ha x (List.mem_of_mem_drop hx)
+  · exact hb x (List.mem_of_mem_drop hx)
+
+/-- `len` is the number of members. -/
+theorem C34_bv_len (s : BitVec5) (h : BVWF s) : s.len = s.iter.length := by
+  unfold BitVec5.len BitVec5.iter
+  rw [length_iterFrom]
+  congr 1
+  apply List.map_congr_left
+  intro b hb
+  exact popcount64 b (h b hb)
+
+/-- `bool(s)` is non-emptiness. -/
+theorem C34_bv_nonzero (s : BitVec5) (h : BVWF s) : s.nonzero = true ↔ ∃ j, s.contains j = true := by
+  unfold BitVec5.nonzero
+  rw [List.any_eq_true]
+  constructor
+  · rintro ⟨b, hb, hne⟩
+    have hne : b ≠ 0 := by simpa using hne
+    obtain ⟨i, hi⟩ := Nat.exists_testBit_of_ne_zero hne
+    have hi32 : i < 32 := by
+      apply Nat.lt_of_not_le
+      intro hle
+      have : b < 2 ^ i := Nat.lt_of_lt_of_le (h b hb) (Nat.pow_le_pow_right (by decide) hle)
+      rw [Nat.testBit_lt_two_pow this] at hi
+      cases hi
+    obtain ⟨c, hc⟩ := List.mem_iff_getElem?.1 hb
+    refine ⟨32 * c + i, ?_⟩
+    rw [contains_eq]
+    have e1 : (32 * c + i) / 32 = c := by omega
+    have e2 : (32 * c + i) % 32 = i := by omega
+    rw [e1, e2, List.getD_eq_getElem?_getD, hc]
+    exact hi
+  · rintro ⟨j, hj⟩
+    rw [contains_eq, List.getD_eq_getElem?_getD] at hj
+    cases hg : s.blocks[j / 32]? with
+    | none => rw [hg] at hj; simp at hj
+    | some b =>
+      rw [hg] at hj
+      refine ⟨b, List.mem_iff_getElem?.2 ⟨_, hg⟩, ?_⟩
+      have : b ≠ 0 := by
+        intro e; subst e; simp at hj
+      simpa using this
+
+example : ((BitVec5.empty.add 40).add 3).iter = [3, 40] := by decide
+example : BVWF ((BitVec5.empty.add 40).add 3) := C34_bv_wf_add _ _ (C34_bv_wf_add _ _ C34_bv_wf_empty)
+
+end BitVector
+
+/-! ## UHeap as a finite map item ↦ key with delete-min -/
+section Heap
+open ProbLogProofs.ContainersHeap
+
+/-- Well-formedness: (1) `_index[it] = p` iff array slot `p` holds item `it` (so items are distinct);
+    (2) heap order: key of the parent ≤ key of the child at every position. -/
+abbrev HeapWF (h : UHeap) : Prop := ContainersHeap.WF h
+
+/-- The abstract state: the key stored for an item (looked up through the index map). -/
+def heapMap (h : UHeap) (it : Int) : Option Int :=
+  (UHeap.lookup h.index it).bind (fun p => h.heap[p]?.map (·.1))
+
+theorem heapMap_eq_some {h : UHeap} (wf : HeapWF h) (it k : Int) :
+    heapMap h it = some k ↔ Entry h k it := by
+  obtain ⟨ok, _⟩ := wf
+  unfold heapMap
+  constructor
+  · intro e
+    cases hl : UHeap.lookup h.index it with
+    | none => rw [hl] at e; cases e
+    | some p =>
+      rw [hl] at e
+      obtain ⟨k', hk'⟩ := (ok it p).1 hl
+      simp only [Option.bind_some, hk', Option.map_some] at e
+      have : k' = k := Option.some.inj e
+      subst this
+      exact ⟨p, hk'⟩
+  · rintro ⟨p, hp⟩
+    have := (ok it p).2 ⟨k, hp⟩
+    rw [this]
+    simp [hp]
+
+theorem C34_uheap_empty_wf : HeapWF UHeap.empty := empty_wf
+
+theorem C34_uheap_empty_map (it : Int) : heapMap UHeap.empty it = none := rfl
+
+/-- The items in the array are pairwise distinct. -/
+theorem C34_uheap_items_distinct (h : UHeap) (wf : HeapWF h) (p q : Nat) (k k' it : Int)
+    (hp : h.heap[p]? = some (k, it)) (hq : h.heap[q]? = some (k', it)) : p = q := wf.1.inj hp hq
+
+/-- Every slot of the array is reachable through the abstract map, and vice versa. -/
+theorem C34_uheap_map_iff_slot (h : UHeap) (wf : HeapWF h) (it k : Int) :
+    heapMap h it = some k ↔ ∃ p : Nat, h.heap[p]? = some (k, it) := heapMap_eq_some wf it k
+
+/-- The root carries a minimum key. -/
+theorem C34_uheap_root_min (h : UHeap) (wf : HeapWF h) (it : Int) (hp : h.peek = some it) :
+    ∃ k, heapMap h it = some k ∧ ∀ it' k', heapMap h it' = some k' → k ≤ k' := by
+  unfold UHeap.peek at hp
+  split at hp
+  · rename_i hs
+    have h0 : h.heap[0]? = some (h.heap[0].1, it) := by
+      rw [Array.getElem?_eq_getElem hs, ← Option.some.inj hp]
+    refine ⟨h.heap[0].1, (heapMap_eq_some wf _ _).2 ⟨0, h0⟩, ?_⟩
+    intro it' k' hk
+    obtain ⟨p, hp'⟩ := (heapMap_eq_some wf _ _).1 hk
+    have := wf.2.root_min p (lt_of_getElem? hp')
+    rw [entry_keyAt hp', entry_keyAt h0] at this
+    exact this
+  · cases hp
+
+theorem C34_uheap_push_wf (h : UHeap) (key item : Int) (wf : HeapWF h) : HeapWF (h.push key item).1 :=
+  (push_spec h key item wf).1
+
+/-- `push` is insert-or-update of the abstract map. -/
+theorem C34_uheap_push_map (h : UHeap) (key item : Int) (wf : HeapWF h) (x : Int) :
+    heapMap (h.push key item).1 x = if x = item then some key else heapMap h x := by
+  obtain ⟨wf', hent, _⟩ := push_spec h key item wf
+  apply Option.ext
+  intro k
+  rw [heapMap_eq_some wf', hent]
+  by_cases hx : x = item
+  · subst hx
+    rw [if_pos rfl]
+    constructor
+    · rintro (⟨_, rfl⟩ | ⟨hne, _⟩)
+      · rfl
+      · exact absurd rfl hne
+    · intro e; exact Or.inl ⟨rfl, (Option.some.inj e).symm⟩
+  · rw [if_neg hx, heapMap_eq_some wf]
+    constructor
+    · rintro (⟨e, _⟩ | ⟨_, he⟩)
+      · exact absurd e hx
+      · exact he
+    · intro he; exact Or.inr ⟨hx, he⟩
+
+/-- `push` returns `is_new`. -/
+theorem C34_uheap_push_is_new (h : UHeap) (key item : Int) (wf : HeapWF h) :
+    (h.push key item).2 = (heapMap h item).isNone := by
+  obtain ⟨_, _, hnew⟩ := push_spec h key item wf
+  cases hm : heapMap h item with
+  | none =>
+    simp only [Option.isNone_none]
+    rw [hnew]
+    rintro ⟨k, hk⟩
+    rw [← heapMap_eq_some wf, hm] at hk
+    cases hk
+  | some k =>
+    simp only [Option.isNone_some]
+    have : ∃ k, Entry h k item := ⟨k, (heapMap_eq_some wf _ _).1 hm⟩
+    cases hb : (h.push key item).2 with
+    | false => rfl
+    | true => exact absurd this (hnew.1 hb)
+
+theorem C34_uheap_push_len (h : UHeap) (key item : Int) :
+    (h.push key item).1.len = if (h.push key item).2 then h.len + 1 else h.len := by
+  unfold UHeap.push UHeap.len
+  split
+  · simp [swimUp_size]
+  · simp only
+    split
+    · simp
+    · split <;> simp [swimUp_size, UHeap.sinkDown, sinkDownAux_size]
+
+theorem C34_uheap_pop_wf (h h' : UHeap) (e : Int × Int) (wf : HeapWF h)
+    (hp : h.popWithKey = some (e, h')) : HeapWF h' :=
+  (pop_spec h wf e.1 e.2 h' hp).1
+
+/-- `pop_with_key` returns an entry of the map with a minimum key … -/
+theorem C34_uheap_pop_min (h h' : UHeap) (k it : Int) (wf : HeapWF h)
+    (hp : h.popWithKey = some ((k, it), h')) :
+    heapMap h it = some k ∧ ∀ it' k', heapMap h it' = some k' → k ≤ k' := by
+  obtain ⟨_, he, hmin, _, _⟩ := pop_spec h wf k it h' hp
+  refine ⟨(heapMap_eq_some wf _ _).2 he, ?_⟩
+  intro it' k' hk
+  exact hmin k' it' ((heapMap_eq_some wf _ _).1 hk)
+
+/-- … and removes exactly that item. -/
+theorem C34_uheap_pop_map (h h' : UHeap) (k it : Int) (wf : HeapWF h)
+    (hp : h.popWithKey = some ((k, it), h')) (x : Int) :
+    heapMap h' x = if x = it then none else heapMap h x := by
+  obtain ⟨wf', _, _, hent, _⟩ := pop_spec h wf k it h' hp
+  apply Option.ext
+  intro k'
+  rw [heapMap_eq_some wf', hent]
+  by_cases hx : x = it
+  · simp [hx]
+  · simp [hx, heapMap_eq_some wf]
+
+theorem C34_uheap_pop_len (h h' : UHeap) (e : Int × Int) (wf : HeapWF h)
+    (hp : h.popWithKey = some (e, h')) : h'.len + 1 = h.len :=
+  (pop_spec h wf e.1 e.2 h' hp).2.2.2.2
+
+/-- `pop` fails (the `assert`) exactly on the empty heap, i.e. when the abstract map is empty. -/
+theorem C34_uheap_pop_none (h : UHeap) (wf : HeapWF h) :
+    h.popWithKey = none ↔ ∀ it, heapMap h it = none := by
+  rw [pop_none_iff]
+  constructor
+  · intro hs it
+    cases hm : heapMap h it with
+    | none => rfl
+    | some k =>
+      obtain ⟨p, hp⟩ := (heapMap_eq_some wf _ _).1 hm
+      have := lt_of_getElem? hp
+      omega
+  · intro hall
+    apply Nat.eq_zero_of_not_pos
+    intro hs
+    have h0 : h.heap[0]? = some (h.heap[0].1, h.heap[0].2) := by rw [Array.getElem?_eq_getElem hs]
+    have := (heapMap_eq_some wf _ _).2 ⟨0, h0⟩
+    rw [hall] at this
+    cases this
+
+/-- Successive pops (no push in between) return non-decreasing keys. -/
+theorem C34_uheap_pops_nondecreasing (h h1 h2 : UHeap) (k1 i1 k2 i2 : Int) (wf : HeapWF h)
+    (p1 : h.popWithKey = some ((k1, i1), h1)) (p2 : h1.popWithKey = some ((k2, i2), h2)) : k1 ≤ k2 := by
+  have wf1 := C34_uheap_pop_wf h h1 _ wf p1
+  have m2 := (C34_uheap_pop_min h1 h2 k2 i2 wf1 p2).1
+  rw [C34_uheap_pop_map h h1 k1 i1 wf p1] at m2
+  split at m2
+  · cases m2
+  · exact (C34_uheap_pop_min h h1 k1 i1 wf p1).2 i2 k2 m2
+
+/-- Operation sequences. -/
+inductive HOp where
+  | push (key item : Int)
+  | pop
+
+def runOps (h : UHeap) : List HOp → UHeap
+  | [] => h
+  | .push k it :: r => runOps (h.push k it).1 r
+  | .pop :: r =>
+    match h.popWithKey with
+    | none => runOps h r
+    | some (_, h') => runOps h' r
+
+theorem runOps_wf (h : UHeap) (ops : List HOp) (wf : HeapWF h) : HeapWF (runOps h ops) := by
+  induction ops generalizing h with
+  | nil => exact wf
+  | cons o r ih =>
+    cases o with
+    | push k it => exact ih _ (C34_uheap_push_wf h k it wf)
+    | pop =>
+      simp only [runOps]
+      split
+      · exact ih _ wf
+      · rename_i e h' hp
+        exact ih _ (C34_uheap_pop_wf h h' e wf hp)
+
+/-- Every heap reachable from the empty heap by pushes (including key updates) and pops is well-formed;
+    so the single-step refinement theorems above apply along every history. -/
+theorem C34_uheap_reachable_wf (ops : List HOp) : HeapWF (runOps UHeap.empty ops) :=
+  runOps_wf _ _ C34_uheap_empty_wf
+
+/-- Pop until empty (at most `n` times). -/
+def drain : Nat → UHeap → List (Int × Int)
+  | 0, _ => []
+  | n + 1, h =>
+    match h.popWithKey with
+    | none => []
+    | some (e, h') => e :: drain n h'
+
+theorem drain_aux (n : Nat) (h : UHeap) (wf : HeapWF h) :
+    ((drain n h).map (·.1)).Pairwise (· ≤ ·) ∧ ∀ e ∈ drain n h, heapMap h e.2 = some e.1 := by
+  induction n generalizing h with
+  | zero => simp [drain]
+  | succ n ih =>
+    simp only [drain]
+    split
+    · simp
+    · rename_i e h' hp
+      obtain ⟨k, it⟩ := e
+      have wf' := C34_uheap_pop_wf h h' _ wf hp
+      obtain ⟨ihs, ihm⟩ := ih h' wf'
+      have hmin := C34_uheap_pop_min h h' k it wf hp
+      have sub : ∀ e ∈ drain n h', heapMap h e.2 = some e.1 := by
+        intro e he
+        have := ihm e he
+        rw [C34_uheap_pop_map h h' k it wf hp] at this
+        split at this
+        · cases this
+        · exact this
+      refine ⟨?_, ?_⟩
+      · simp only [List.map_cons, List.pairwise_cons]
+        refine ⟨?_, ihs⟩
+        intro k' hk'
+        obtain ⟨e, he, rfl⟩ := List.mem_map.1 hk'
+        exact hmin.2 e.2 e.1 (sub e he)
+      · intro e he
+        rcases List.mem_cons.1 he with rfl | he
+        · exact hmin.1
+        · exact sub e he
+
+/-- Popping repeatedly yields the keys in non-decreasing order, and only entries of the map. -/
+theorem C34_uheap_drain_sorted (n : Nat) (h : UHeap) (wf : HeapWF h) :
+    ((drain n h).map (·.1)).Pairwise (· ≤ ·) := (drain_aux n h wf).1
+
+theorem C34_uheap_drain_entries (n : Nat) (h : UHeap) (wf : HeapWF h) :
+    ∀ e ∈ drain n h, heapMap h e.2 = some e.1 := (drain_aux n h wf).2
+
+/-- Non-vacuity: a concrete history with a key update (item 7: key 5 → 1). -/
+example : drain 5 (runOps UHeap.empty [.push 5 7, .push 3 8, .push 4 9, .push 1 7]) = [(1, 7), (3, 8), (4, 9)] := by
+  decide +kernel
+
+end Heap
 
 end ProbLogProofs.C34
